@@ -85,6 +85,29 @@ PrintA(T) ==
                                    THEN " " ELSE "") \o T[i].s,
            "", [i \in 1..Len(T) |-> i])
 
+(* ---- Level I, step by step (fifth round) --------------------------------
+   print_tokens as the loop it is, on tokens [s, bol, hs] that keep at_bol and
+   has_space apart, with the loop's own state explicit:
+       i     the token about to be written
+       line  main.c `int line = 1; ... line++` (one more than the number of tokens written)
+       prev  index of the token written last, 0 = NULL
+       out   the text written so far
+   `rule` selects the transcription: "tokens" is main.c as it stands (the newline before an at_bol token is
+   guarded by `line > 1`, and line counts written tokens, i.e. the guard means "not the first token");
+   "lines" is the sensitivity control of PrinterSeq.tla: line counts at_bol tokens only, so the guard means
+   "not the first at_bol token" — the same text whenever the first token is at_bol, and only then.          *)
+PT0 == [i |-> 1, line |-> 1, prev |-> 0, out |-> ""]
+PTDone(T, st) == st.i > Len(T)
+PTStep(T, st, fix, rule) ==
+  LET tok == T[st.i]
+      nl  == st.line > 1 /\ tok.bol
+      bl  == (tok.hs \/ (st.prev # 0 /\ fix /\ AvoidPaste(T[st.prev].s, tok.s))) /\ ~tok.bol
+  IN [i    |-> st.i + 1,
+      line |-> IF rule = "tokens" \/ tok.bol THEN st.line + 1 ELSE st.line,
+      prev |-> st.i,
+      out  |-> st.out \o (IF nl THEN "\n" ELSE "") \o (IF bl THEN " " ELSE "") \o tok.s]
+PTFinal(st) == st.out \o "\n"              \* the fprintf(out, "\n") after the loop
+
 Faithful(T, fix) == Lex(PrintI(T, fix)) = Spell(T)
 FaithfulA(T)     == Lex(PrintA(T)) = Spell(T)
 =============================================================================
